@@ -362,6 +362,10 @@ func (x *FnExec) contractCall(c *Contract, sig *types.Signature, key string, arg
 	for _, en := range c.Ensures {
 		x.assume(g, pev.evalBool(en.E))
 	}
+	for _, en := range c.Defines {
+		x.assume(g, pev.evalBool(en.E))
+		x.trustedUsed["definitional clause of "+shortKey(c.Key)+": "+en.Text] = true
+	}
 	return res
 }
 
